@@ -27,7 +27,10 @@ META = {
             "function on Float) and the K, B, I that getsolparam / getimpedance / mj_makeImpedance write to efc_KBIP (hand model cKbi, compared with the real C "
             "engine through a one-equality model) are proved to be the same real function for either REFSAFE setting, every time step, solref in the standard "
             "or the direct format, every solimp with d0 <= dwidth and width > mjMINVAL, any midpoint / power / position (the two guarded denominators of the "
-            "standard format not below mjMINVAL); outside these hypotheses the two sources differ (three recorded findings, each with a directed case).",
+            "standard format not below mjMINVAL); outside these hypotheses the two sources differ (three recorded findings, each with a directed case). Storage: "
+            "mjx_euler_damping_on_diagonal — in the row layout of the sparse inertia matrix (Lean sparseRows(dof_parentid), compared exactly with M_rowadr / "
+            "M_rownnz / M_colind of every model the tree compiles in the run) the address M_rowadr[i] + M_rownnz[i] - 1, the index expression that the "
+            "sparse branch of euler() is checked (ast) to use for h * dof_damping, is the diagonal entry of row i.",
     "note": "Everything else of the property — the whole pipeline (kinematics, inertia, bias and passive forces, actuation, contacts, "
             "constraint rows, solver, sensors, integrators) — is NOT claimed by any theorem: it is examined by the oracle on the real "
             "code only (x64 CPU; models restricted to MJX's feature set with analytic colliders; states produced by simulating in C; "
@@ -35,7 +38,10 @@ META = {
             "engine on seeded arguments inside the theorem's hypotheses, a fixed-structure constraint-parameter family — joint/tendon limits, friction loss, a "
             "joint equality, plane/sphere and sphere/sphere contacts with geom-parameter mixing, an explicit pair with solreffriction, both cones, REFSAFE "
             "on/off — whose solref/solimp/margin/gap/solmix/friction/time step and state are redrawn per case, and randomised solref/solimp/solmix in two "
-            "thirds of the generic models). Proofs are over the reals; the power function of the impedance spline is a parameter of the models (Float.pow in "
+            "thirds of the generic models; the storage x integrator family — a branched hinge/ball/slide chain with damping, armature, springs, a tendon, a "
+            "filtered servo, a limit and friction loss, built with jacobian = sparse and dense for Euler (both always), RK4 and implicitfast (one per storage "
+            "per seed in the quick tier, all plus EULERDAMP disabled in the thorough tier) — whose parameters and state are redrawn and compared after "
+            "mjx.step with mj_step). Proofs are over the reals; the power function of the impedance spline is a parameter of the models (Float.pow in "
             "the driver, Real.rpow in the proof). The mujoco wheel of /venv "
             "is the MjSpec compiler and MjModel container on the MJX side; its compiled model is cross-checked array by array against "
             "the model the tree's compiler produces from the same description. Mesh / hfield / SDF / flex features cannot be built in "
@@ -45,7 +51,7 @@ META = {
 P = "MjProof.C43."
 THEOREMS = [P + t for t in (
     "mjx_quat_mul_eq_c", "mjx_quat_mul_axis_eq_c", "mjx_rotate_eq_c", "mjx_rotate_sub_c", "mjx_quat_to_mat_eq_c",
-    "mjx_axis_angle_to_quat_eq_c", "mjx_motion_cross_eq_c", "mjx_motion_cross_force_eq_c", "mjx_inert_mul_eq_c", "mjx_kbi_eq_c")]
+    "mjx_axis_angle_to_quat_eq_c", "mjx_motion_cross_eq_c", "mjx_motion_cross_force_eq_c", "mjx_inert_mul_eq_c", "mjx_kbi_eq_c", "mjx_euler_damping_on_diagonal")]
 THEOREMS_GATE = [P + "gate_matches_spec", P + "deviations_used"]
 
 KERNELS = ["mju_mulQuat", "mju_mulQuatAxis", "mju_rotVecQuat", "mju_quat2Mat", "mju_axisAngle2Quat", "mju_quatIntegrate",
@@ -239,6 +245,7 @@ class Pair:
     def __init__(self, ctx, ceng, hx, orc):
         self.ctx, self.c, self.h, self.orc = ctx, ceng, hx, orc
         self.dev = ctx.extra.setdefault("pipeline_max_relative_deviation", {})
+        self.layouts = {}
 
     def cnum(self, field):
         o = self.c.ask("num 0 " + field)
@@ -258,6 +265,12 @@ class Pair:
             self.c.ask("data 0")
             w = co.split()
             self.sizes = {w[i]: int(w[i + 1]) for i in range(1, len(w) - 1, 2)}
+            if self.sizes.get("nv"):
+                # layout of the sparse inertia matrix of the tree-compiled model (compared with the Lean model sparseRows/diagAdr in layout_tie)
+                def arr(n):
+                    return [int(float(x)) for x in self.c.ask("numm " + n).split(":", 1)[1].split()]
+                par, ra, rn, ci = arr("dof_parentid"), arr("M_rowadr"), arr("M_rownnz"), arr("M_colind")
+                self.layouts[tuple(par)] = [a + k - 1 for a, k in zip(ra, rn)] + ci
         return co, ho
 
     def model_equal(self):
@@ -730,6 +743,172 @@ def draw_solimp(rng, hist):
     return [a, b, 10 ** rng.uniform(-3.5, -1.3), rng.uniform(0.1, 0.9), {"1": 1.0, "2": 2.0, "3": 3.0, "real": rng.uniform(1.0, 5.0)}[pk]]
 
 
+EULER_SPARSE_INDEX = "m.M_rowadr + m.M_rownnz - 1"
+
+
+def euler_source_shape(ctx):
+    """the sparse branch of euler() in mjx/_src/forward.py adds `m.opt.timestep * m.dof_damping` at the index expression that diagAdr models"""
+    import ast
+    path = os.path.join(common.REPO, "mjx", "mujoco", "mjx", "_src", "forward.py")
+    found, why = None, "euler() / `if support.is_sparse(m)` / `.at[...].add(...)` not found"
+    try:
+        tree = ast.parse(open(path).read())
+        fn = next(n for n in tree.body if isinstance(n, ast.FunctionDef) and n.name == "euler")
+        for node in ast.walk(fn):
+            if isinstance(node, ast.If) and ast.unparse(node.test) == "support.is_sparse(m)":
+                env = {}
+                for st in node.body:
+                    if isinstance(st, ast.Assign) and len(st.targets) == 1 and isinstance(st.targets[0], ast.Name):
+                        env[st.targets[0].id] = st.value
+                for st in node.body:
+                    for c in ast.walk(st):
+                        if (isinstance(c, ast.Call) and isinstance(c.func, ast.Attribute) and c.func.attr == "add" and isinstance(c.func.value, ast.Subscript)
+                                and isinstance(c.func.value.value, ast.Attribute) and c.func.value.value.attr == "at"):
+                            idx = c.func.value.slice
+                            if isinstance(idx, ast.Name) and idx.id in env:
+                                idx = env[idx.id]
+                            found = (ast.unparse(c.func.value.value.value), ast.unparse(idx), ast.unparse(c.args[0]) if c.args else "")
+                dense = [ast.unparse(st.value) for st in node.orelse if isinstance(st, ast.Assign)]
+                if found:
+                    why = "matrix %s, index %s, value %s, dense branch %s" % (found + (dense,))
+                    ok = found == ("d._impl.M", EULER_SPARSE_INDEX, "m.opt.timestep * m.dof_damping") and dense == ["d._impl.M + jp.diag(m.opt.timestep * m.dof_damping)"]
+                    ctx.oblige("source shape of euler(): the sparse branch adds m.opt.timestep * m.dof_damping to d._impl.M at `%s` (the expression Model/MjxMath.diagAdr "
+                               "models), the dense branch adds jp.diag of the same vector" % EULER_SPARSE_INDEX, "translator", ok, why)
+                    return
+    except Exception as e:   # pylint: disable=broad-except
+        why = "%s: %s" % (type(e).__name__, e)
+    ctx.oblige("source shape of euler(): sparse-branch index expression extracted", "translator", False, why)
+
+
+def layout_tie(ctx, pair):
+    """Lean sparseRows / diagAdr on dof_parentid vs M_rowadr + M_rownnz - 1 and M_colind of every model the tree compiled in this run (exact)"""
+    drv = ctx.driver("drv_c43")
+    if not drv or not pair.layouts:
+        return
+    keys = list(pair.layouts)
+    lines = ["diagadr " + " ".join(fbits(float(x)) for x in k) for k in keys] + ["diagadr " + fbits(0.5)]
+    rc, out, err = ctx.run_lines([drv], lines)
+    if rc or len(out) != len(lines):
+        raise common.Infra("drv_c43 failed on the layout stream: %s" % err[-300:])
+    bad = []
+    for k, l, o in zip(keys, lines, out):
+        want = " ".join(fbits(float(x)) for x in pair.layouts[k])
+        ctx.count(l, nontrivial=max(k) >= 0)
+        if o != want:
+            bad.append({"dof_parentid": list(k), "model(diag addresses, colind)": [frombits(t) for t in o.split()] if o != "bad-op" else o, "impl(tree-compiled)": pair.layouts[k]})
+    if out[-1] != "bad-op":
+        bad.append({"line": lines[-1], "model": out[-1], "impl": "bad-op"})
+    ctx.oblige("correspondence layout of the sparse inertia matrix: Lean sparseRows/diagAdr(dof_parentid) vs M_rowadr + M_rownnz - 1 and M_colind of the tree-compiled "
+               "models (%d distinct dof trees, %d with ancestor dofs; exact)" % (len(keys), sum(1 for k in keys if max(k) >= 0)), "correspondence", not bad, json.dumps(bad[:4]))
+
+
+# ------------------------------------------------------------------------------------------ storage x integrator family
+def chain_lines(jac, integ, eulerdamp):
+    """a branched chain without contacts: hinge - hinge(limited, friction loss) - ball on one branch, slide(spring) - hinge on the other, a second
+    tree with one hinge, a fixed tendon with stiffness and damping, a filtered position servo with velocity feedback; every dof below the root of the
+    first tree has ancestor dofs, so the rows of the sparse mass matrix have off-diagonal entries.  jac / integ / eulerdamp are static in MJX."""
+    dis = 0 if eulerdamp else E("mjDSBL_EULERDAMP")
+    nc = ["set %d contype 0", "set %d conaffinity 0"]
+    L = ["compiler degree 0"] + SOLVER_TIGHT + ["option jacobian %d" % E("mjJAC_" + jac), "option integrator %d" % E("mjINT_" + integ), "option disableflags %d" % dis,
+         "body 2 0", "set 2 pos 0 0 1", "joint 3 2", "name 3 h1", "set 3 axis 0 1 0", "set 3 damping 0.3", "geom 4 2", "set 4 size 0.08", "set 4 pos 0.2 0 0"] + [x % 4 for x in nc] + [
+         "body 5 2", "set 5 pos 0.4 0 0", "joint 6 5", "name 6 h2", "set 6 axis 1 0 0", "set 6 limited 1", "set 6 range -0.6 0.6", "set 6 frictionloss 0.05", "set 6 damping 0.2",
+         "geom 7 5", "set 7 size 0.07", "set 7 pos 0.15 0.1 0"] + [x % 7 for x in nc] + [
+         "body 8 5", "set 8 pos 0.3 0 0", "joint 9 8", "name 9 b", "set 9 type %d" % E("mjJNT_BALL"), "set 9 damping 0.1", "geom 10 8", "set 10 type %d" % E("mjGEOM_CAPSULE"),
+         "set 10 size 0.04 0.12", "set 10 pos 0.1 0 0.1"] + [x % 10 for x in nc] + [
+         "body 11 2", "set 11 pos 0 0.3 0", "joint 12 11", "name 12 s", "set 12 type %d" % E("mjJNT_SLIDE"), "set 12 axis 0 0 1", "set 12 stiffness 20", "set 12 damping 0.5",
+         "geom 13 11", "set 13 size 0.06"] + [x % 13 for x in nc] + [
+         "body 14 11", "set 14 pos 0 0.2 0", "joint 15 14", "name 15 h3", "set 15 axis 0 1 0", "set 15 damping 0.1", "set 15 armature 0.02", "geom 16 14", "set 16 size 0.05",
+         "set 16 pos 0.2 0 0"] + [x % 16 for x in nc] + [
+         "body 17 0", "set 17 pos 1 1 1", "joint 18 17", "name 18 h4", "set 18 axis 0 0 1", "set 18 damping 0.4", "geom 19 17", "set 19 size 0.1", "set 19 pos 0.3 0 0"] + [x % 19 for x in nc] + [
+         "tendon 20", "wrap 20 joint h1 1.0", "wrap 20 joint h3 -0.8", "set 20 stiffness 5", "set 20 damping 0.3",
+         "actuator 21", "set 21 trntype %d" % E("mjTRN_JOINT"), "set 21 target h3", "set 21 dyntype %d" % E("mjDYN_FILTER"), "set 21 dynprm 0.05",
+         "set 21 gainprm 8", "set 21 biastype %d" % E("mjBIAS_AFFINE"), "set 21 biasprm 0 -8 -0.7"]
+    return L
+
+
+def run_storage_family(ctx, pair, orc, rng, quick):
+    """every MJX code path selected by support.is_sparse(m) (mass-matrix storage: crb, factor_m, solve_m, mul_m, full_m, the implicit damping of
+    euler, the derivative of implicitfast) x every integrator, on the chain model: damping / armature / stiffness / gains / time step and the
+    state are redrawn on a fixed structure; compared with mj_forward and mj_step of the C engine built with the same jacobian option"""
+    hist = ctx.extra.setdefault("storage_family_histogram", {})
+    allv = [(j, i, True) for j in ("SPARSE", "DENSE") for i in ("EULER", "RK4", "IMPLICITFAST")] + [("SPARSE", "EULER", False), ("DENSE", "EULER", False)]
+    if quick:
+        # quick tier: Euler with both storages always (the one integrator whose code branches on the storage), one further integrator per storage
+        # drawn per seed; only mjx.step is traced (its result depends on every forward quantity)
+        variants = [("SPARSE", "EULER", True), ("DENSE", "EULER", True), ("SPARSE", rng.choice(("RK4", "IMPLICITFAST")), True), ("DENSE", rng.choice(("RK4", "IMPLICITFAST")), True)]
+    else:
+        variants = allv
+    ndraw = 3 if quick else 25
+    ran = 0
+    for jac, integ, ed in variants:
+        L = chain_lines(jac, integ, ed)
+        co, ho = pair.load(L)
+        if not pair.c_ok:
+            ctx.oblige("tree build compiles the storage x integrator family model", "environment", False, co)
+            return
+        tag = "jacobian=%s integrator=%s%s" % (jac.lower(), integ.lower(), "" if ed else " eulerdamp-disabled")
+        rp0 = {"model_description": L, "variant": tag, "how": "load the description on both sides, apply the 'setm' lines on both sides, set the state, forward / step"}
+        if not ho.startswith("ok"):
+            orc.n += 1
+            orc.fail("c43:gate:rejects-supported-model", "the storage x integrator family model (%s) is rejected: %s" % (tag, ho[:200]), rp0)
+            continue
+        n, bad = pair.model_equal()
+        if bad:
+            ctx.oblige("wheel-compiled model equals tree-compiled model (%d arrays, storage family)" % n, "environment", False, "; ".join(bad[:8]))
+            continue
+        # the diagonal of row i of the sparse inertia matrix is its LAST entry (the index map euler() relies on), on the model the tree compiled
+        def marr(nm):
+            return [int(float(x)) for x in pair.c.ask("numm " + nm).split(":", 1)[1].split()]
+        rn, ra, ci = marr("M_rownnz"), marr("M_rowadr"), marr("M_colind")
+        ctx.oblige("storage family (%s): M_colind[M_rowadr[i] + M_rownnz[i] - 1] = i for every dof of the tree-compiled model, and some row has more than one entry" % tag,
+                   "environment", all(ci[a + k - 1] == i for i, (a, k) in enumerate(zip(ra, rn))) and max(rn) > 1, "rownnz %s rowadr %s colind %s" % (rn, ra, ci))
+        nv, njnt = pair.sizes["nv"], pair.sizes["njnt"]
+        hist[tag] = 0
+        for di in range(ndraw):
+            ts = rng.choice((0.001, 0.002, 0.005, 0.01))
+            kp, kv = rng.uniform(2, 20), rng.uniform(0.0, 2.0)
+            prm = {"opt.timestep": [ts],
+                   "dof_damping": [rng.choice((0.0, rng.uniform(0.05, 3.0), rng.uniform(0.05, 3.0))) for _ in range(nv)],
+                   "dof_armature": [rng.choice((0.0, rng.uniform(0.005, 0.2))) for _ in range(nv)],
+                   "jnt_stiffness": [rng.choice((0.0, rng.uniform(1.0, 40.0))) for _ in range(njnt)],
+                   "dof_frictionloss": [0.0, rng.uniform(0.01, 0.3)] + [0.0] * (nv - 2),
+                   "tendon_stiffness": [rng.choice((0.0, rng.uniform(1.0, 20.0)))], "tendon_damping": [rng.choice((0.0, rng.uniform(0.05, 2.0)))],
+                   "actuator_gainprm": [kp] + [0.0] * 9, "actuator_biasprm": [0.0, -kp, -kv] + [0.0] * 7}
+            prm["dof_damping"][rng.randrange(1, nv - 1)] = rng.uniform(0.1, 3.0)    # at least one damped dof with an ancestor dof
+            setm = ["setm %s %s" % (k, " ".join(repr(float(x)) for x in v)) for k, v in prm.items()]
+            for l in setm:
+                a, b = pair.c.ask(l), pair.h.ask(l)
+                if a != "ok" or b != "ok":
+                    raise common.Infra("setm rejected (%s / %s): %s" % (a, b, l[:80]))
+            st = {"qpos": [rng.uniform(-1, 1), rng.choice((rng.uniform(-0.5, 0.5), rng.choice((-1, 1)) * rng.uniform(0.6, 0.65)))] + unit(rng, 4)
+                          + [rng.uniform(-0.2, 0.2), rng.uniform(-1, 1), rng.uniform(-1, 1)],
+                  "qvel": [rng.gauss(0, 1.0) for _ in range(nv)], "act": [rng.uniform(-0.5, 0.5)], "ctrl": [rng.uniform(-1, 1)]}
+            pair.set_state(st)
+            rps = dict(rp0, setm=setm, state=st)
+            if not quick:
+                if pair.c.ask("forward 0") != "ok":
+                    continue
+                if pair.h.ask("forward", timeout=900) != "ok":
+                    orc.n += 1
+                    orc.fail("c43:mjx-forward-raises", "mjx.forward raised on the storage x integrator family model (%s)" % tag, rps)
+                    break
+                ctx.count(("storage", tag, di, "forward"))
+                pair.compare(["qfrc_bias", "qfrc_passive", "qfrc_actuator", "qacc_smooth", "qfrc_constraint", "qacc", "act_dot"], "storage-forward", rps, tol=TOL_FAMILY)
+                pair.compare_M(rps)
+                pair.compare_efc(rps, tol=TOL_FAMILY, tag="storage-", tol_static=1e-9)
+            nstep = rng.choice((1, 1, 3))
+            if pair.c.ask("step 0 %d" % nstep) == "ok":
+                if pair.h.ask("step %d" % nstep, timeout=900) != "ok":
+                    orc.n += 1
+                    orc.fail("c43:mjx-step-raises", "mjx.step raised on the storage x integrator family model (%s)" % tag, rps)
+                    break
+                ctx.count(("storage", tag, di, "step"))
+                pair.compare(["qpos", "qvel", "act"], "storage-step[%s %s]" % (jac.lower(), integ.lower()), dict(rps, nstep=nstep), tol=TOL_FAMILY)
+            hist[tag] += 1
+            ran += 1
+    ctx.extra["storage_family_states_run"] = ran
+
+
 def run_family(ctx, pair, orc, rng, quick):
     """C engine versus MJX on the family model: every solver parameter (solref in both formats, solimp, margins, gaps, solmix, friction,
     friction loss, time step) and the state are redrawn; the structure (hence the compiled MJX program) is fixed per (cone, REFSAFE)"""
@@ -938,7 +1117,9 @@ def run_agree(ctx, pair, orc, rng, quick, nmodels):
             ctx.oblige("wheel-compiled model equals tree-compiled model (%d arrays)" % n, "environment", False, "; ".join(bad[:8]))
             continue
         ctx.extra["model_arrays_cross_checked"] = ctx.extra.get("model_arrays_cross_checked", 0) + n
-        for k in ("integrator", "solver", "cone", "solver_params"):
+        for k in ("integrator", "solver", "cone", "solver_params", "jacobian"):
+            if k not in mdl.options:
+                continue
             hist["%s=%s" % (k, mdl.options[k])] = hist.get("%s=%s" % (k, mdl.options[k]), 0) + 1
         for k, v in (("free", any(j["type"] == "free" for j in mdl.joints)), ("ball", any(j["type"] == "ball" for j in mdl.joints)),
                      ("actuators", bool(mdl.actuators)), ("tendons", bool(mdl.tendons)), ("equalities", bool(mdl.equalities)),
@@ -1407,7 +1588,8 @@ def _run(ctx, procs):
                 "descriptions restricted to MJX's feature set with analytic colliders (plane/sphere/capsule), every integrator/solver/cone MJX "
                 "offers, actuators incl. muscles, fixed and spatial tendons, equalities, sensors, mocap, solver parameters (solref in both formats, solimp, "
                 "solmix, REFSAFE) randomised in 2 of 3 models; states reached by simulating in C; K/B/I arguments: format x REFSAFE x solimp shape x position "
-                "classes (histogram in kbi_input_histogram); constraint-parameter family: parameters and states redrawn on a fixed structure per (cone, REFSAFE); "
+                "classes (histogram in kbi_input_histogram); constraint-parameter family: parameters and states redrawn on a fixed structure per (cone, REFSAFE); storage x integrator family: per "
+                "(jacobian, integrator, EULERDAMP), at least one damped dof with an ancestor dof in every case; "
                 "gate: single-feature variants of a base model; a case is distinct by (model, state, op); non-trivial = forward/step on nv > 0")
     ctx.checker_cmd = ("cd /verif && python3 translate/regen_all.py && cd lean && lake build MjProof.Props.C43 MjProof.Props.C43Gate "
                        "&& lake env lean Audit/C43.lean")
@@ -1418,6 +1600,7 @@ def _run(ctx, procs):
     gate_ok = r.returncode == 0
     ctx.oblige("translator c43_gate (every NotImplementedError site of _put_option/_put_model_jax/_make_data_jax, types.py enums, _COLLISION_FUNC, "
                "mjCOLLISIONFUNC)", "translator", gate_ok, (r.stdout + r.stderr)[-2000:])
+    euler_source_shape(ctx)
     tm["translators"] = round(time.time() - t0, 1)
     t0 = time.time()
     ctx.lean_props(THEOREMS)
@@ -1476,11 +1659,15 @@ def _run(ctx, procs):
         run_family(ctx, pair, orc, ctx.rng, quick)
         tm["constraint-parameter family"] = round(time.time() - t0, 1)
         t0 = time.time()
+        run_storage_family(ctx, pair, orc, ctx.rng, quick)
+        tm["storage x integrator family"] = round(time.time() - t0, 1)
+        t0 = time.time()
         run_agree(ctx, pair, orc, ctx.rng, quick, 3 if quick else 22)
         tm["C-vs-MJX pipeline comparison"] = round(time.time() - t0, 1)
     except (BrokenPipeError, AttributeError, ValueError, TypeError) as e:
         rc, err = hx.close()
         orc.fail("c43:harness-died", "a harness process died / answered garbage: %s" % e, {"stderr": err[-800:]})
+    layout_tie(ctx, pair)
     ctx.extra["oracle_checked"] = orc.n
     ctx.extra["oracle_failures"] = orc.nfail
     ctx.extra["oracle_failure_keys"] = orc.keys
